@@ -1,6 +1,8 @@
 (* Model side of the kernels engine (C13): same line protocol as
-   harness/kernels.cpp for the exact cases N T D M U UF F; the impl-only
-   cases (G R K B) print nothing. *)
+   harness/kernels.cpp for the exact cases N T D M U UF F SW SS KE FE MX; the
+   impl-only cases (G R K B) print nothing.  For the cases over a LAND (rows cols
+   ew ns edges) node_at is decided from the edge list of the case line: a cell
+   has a network node iff it is an end point of an edge. *)
 open Conv
 module P = Popsmodel
 
@@ -20,6 +22,26 @@ let class_name = function
   | P.CUniform -> "uniform" | P.CNeighbor -> "neighbor" | P.CNetwork -> "network"
   | P.CDeterministic -> "deterministic" | P.CRadial -> "radial"
 let stream_name = function P.StreamNatural -> "natural" | P.StreamAnthropogenic -> "anthropogenic"
+
+let ktype_of = function
+  | "Cauchy" -> P.KCauchy | "Exponential" -> P.KExponential | "Uniform" -> P.KUniform
+  | "DeterministicNeighbor" -> P.KDeterministicNeighbor | "PowerLaw" -> P.KPowerLaw
+  | "HyperbolicSecant" -> P.KHyperbolicSecant | "Gamma" -> P.KGamma
+  | "ExponentialPower" -> P.KExponentialPower | "Weibull" -> P.KWeibull | "Normal" -> P.KNormal
+  | "LogNormal" -> P.KLogNormal | "Logistic" -> P.KLogistic | "Network" -> P.KNetwork | "None" -> P.KNone
+  | _ -> failwith "kernel type token"
+
+let cell_of s = match String.split_on_char ':' s with
+  | [r; c] -> (int_of_string r, int_of_string c) | _ -> failwith "cell token"
+(* node cells of the network: the end points of the edges *)
+let nodes_of edges =
+  if edges = "-" then [] else
+    List.concat_map (fun e -> match String.split_on_char '-' e with
+        | [a; b] -> [cell_of a; cell_of b] | _ -> failwith "edge token")
+      (String.split_on_char ',' edges)
+let b01 b = if b then 1 else 0
+let flag_of = function "1" -> true | "0" -> false | "d" -> P.switch_default_stochasticity | _ -> failwith "flag token"
+let choice_name = function P.MixNatural -> "natural" | P.MixAnthropogenic -> "anthropogenic"
 
 let run_case k line =
   let t = Array.of_list (split_ws line) in
@@ -61,6 +83,53 @@ let run_case k line =
     Printf.printf "%d fac %s\n" k
       (res (fun kt -> class_name ((if t.(1) = "nat" then P.factory_natural else P.factory_anthropogenic) kt st))
          (P.kernel_type_from_string (coq_string_of (unhex t.(2)))))
+  | "SS" ->
+    let ty = ktype_of t.(1) in
+    let cs c = b01 (P.class_supports c ty) in
+    Printf.printf "%d sup switch=%d radial=%d deterministic=%d uniform=%d neighbor=%d network=%d\n" k
+      (b01 (P.switch_supports ty)) (cs P.CRadial) (cs P.CDeterministic) (cs P.CUniform) (cs P.CNeighbor) (cs P.CNetwork)
+  | "SW" ->
+    (* SW type flag movement rows cols ew ns edges seed cells... *)
+    let ty = ktype_of t.(1) and st = flag_of t.(2) and nodes = nodes_of t.(8) in
+    for j = 10 to Array.length t - 1 do
+      let node_at = List.mem (cell_of t.(j)) nodes in
+      let cls = P.switch_target ty st in
+      Printf.printf "%d sw%d elig=%d member=%s exc=%d\n" k (j - 10)
+        (b01 (P.switch_eligible ty st node_at)) (class_name cls) (b01 (P.class_call_throws cls node_at))
+    done
+  | "KE" ->
+    let nodes = nodes_of t.(6) in
+    for j = 7 to Array.length t - 1 do
+      let node_at = List.mem (cell_of t.(j)) nodes in
+      let e c = b01 (P.elig_eval (P.class_eligible c) node_at) in
+      Printf.printf "%d ke%d radial=%d deterministic=%d uniform=%d neighbor=%d network=%d\n" k (j - 7)
+        (e P.CRadial) (e P.CDeterministic) (e P.CUniform) (e P.CNeighbor) (e P.CNetwork)
+    done
+  | "FE" ->
+    (* FE which hex stochastic movement rows cols ew ns edges cells... *)
+    let st = i 3 = 1 and nodes = nodes_of t.(9) and nat = t.(1) = "nat" in
+    (match P.kernel_type_from_string (coq_string_of (unhex t.(2))) with
+     | P.Err e -> Printf.printf "%d fe class=err:%s\n" k (err_name e)
+     | P.Ok kt ->
+       Printf.printf "%d fe class=%s\n" k (class_name ((if nat then P.factory_natural else P.factory_anthropogenic) kt st));
+       for j = 10 to Array.length t - 1 do
+         let node_at = List.mem (cell_of t.(j)) nodes in
+         Printf.printf "%d fe%d elig=%d\n" k (j - 10)
+           (b01 ((if nat then P.factory_natural_eligible else P.factory_anthropogenic_eligible) kt st node_at))
+       done)
+  | "MX" ->
+    (* MX route use pk uk bern type flag natkind movement rows cols ew ns edges seed cells... *)
+    let hand = t.(1) = "hand" and use = i 2 = 1 and bern = i 5 = 1 in
+    let ty = ktype_of t.(6) and st = flag_of t.(7) and nodes = nodes_of t.(14) in
+    for j = 16 to Array.length t - 1 do
+      let node_at = List.mem (cell_of t.(j)) nodes in
+      let elig = if hand then P.switch_eligible ty st node_at else P.factory_anthropogenic_eligible ty st node_at in
+      let ch = (if hand then P.mix_switch_choice else P.mix_factory_choice) use ty st node_at bern in
+      let draws = (if hand then P.mix_switch_draws else P.mix_factory_draws) use ty st node_at in
+      let cls = if hand then P.switch_target ty st else P.factory_anthropogenic ty st in
+      let exc = ch = P.MixAnthropogenic && P.class_call_throws cls node_at in
+      Printf.printf "%d mx%d elig=%d choice=%s bdraws=%d exc=%d\n" k (j - 16) (b01 elig) (choice_name ch) (b01 draws) (b01 exc)
+    done
   | _ -> ()
 
 let () = iter_lines (open_in Sys.argv.(1)) run_case
